@@ -322,6 +322,9 @@ def evaluate(case, tier, res=None):
                 ref = reference(case)
             except CaseTimeout:
                 raise
+            except ScriptError as ex:
+                # the plain driver (refine, then tighten until no progress) itself does not end in a single value
+                return {'key': f'{ex.kind} @ {ex.site or "script"} : reference run (refine, then tighten until no progress)', 'detail': str(ex)}
             except Exception as ex:  # noqa
                 return {'key': f'exception {type(ex).__name__} @ {site_of(ex)} : reference run', 'detail': repr(ex)}
             depth = 6 if tier == 'quick' else 8
